@@ -349,6 +349,10 @@ def exec_AC(t):
     a = [int(c) for c in parse_list(t[10])]
     c = Fraction(t[11])
     cv = int(c) if c.denominator == 1 else to_float(c)
+    # the constant as a python number or (content-determined) as the NumPy scalar of the same value: np.int64 / np.float64 — what a
+    # number taken out of a NumPy array is; on the left of the operator NumPy dispatches the operation
+    if (nx + fx + len(a) + a[0] + int(c * 8)) % 3 == 0 and (c.denominator != 1 or abs(c) < 2 ** 62):
+        cv = np.int64(cv) if c.denominator == 1 else np.float64(cv)
     try:
         x = mk(a, sx, nx, fx, rounding=r, overflow=o, op_input_size=insize, const_op_sizing=csz, op_method=meth,
                op_sizing='optimal' if csz != 'optimal' else 'same', dirty_ok=True)
